@@ -313,24 +313,43 @@ func cmdCheck(propID, tier string) int {
 	var replayPaths []string
 	if len(unknown) > 0 {
 		// minimise and confirm the first occurrence of up to 3 distinct classes
-		seen := map[string]bool{}
+		// group the failing runs by class; for each of up to three classes try the failing runs in
+		// order until one reproduces standalone in a fresh process (a violation that depends on what
+		// an earlier run left behind in the worker process — e.g. a package-level variable in the
+		// code under test — does not, and the next candidate is tried)
+		byClass := map[string][]hit{}
+		var order []string
 		for _, h := range unknown {
-			if seen[h.class] || len(seen) >= 3 {
-				continue
+			if _, ok := byClass[h.class]; !ok {
+				order = append(order, h.class)
 			}
-			seen[h.class] = true
-			raw := filepath.Join(agg.failDir, fmt.Sprintf("fail-%s-%d.json", propID, h.run))
-			outp := filepath.Join(verifRoot, "replays", fmt.Sprintf("%s-%d-%d-%d.json", propID, batch, h.run, len(seen)))
-			_ = os.MkdirAll(filepath.Dir(outp), 0o755)
-			rc := minimiseAndConfirm(raw, outp, h.class)
-			switch rc {
-			case 0:
-				fmt.Printf("VIOLATION property=%s replay=%s\n", propID, outp)
-				fmt.Printf("  class=%s run=%d block=%d step=%d height=%d: %s\n", h.class, h.run, h.v.Block, h.v.Step, h.v.Height, h.v.Detail)
-				replayPaths = append(replayPaths, outp)
-				exit = 1
-			default:
-				fmt.Fprintf(os.Stderr, "MACHINERY-ERROR property=%s: violation %s of run %d did not reproduce in a fresh process (rc=%d); not reported as a violation\n", propID, h.class, h.run, rc)
+			if len(byClass[h.class]) < 6 {
+				byClass[h.class] = append(byClass[h.class], h)
+			}
+		}
+		if len(order) > 3 {
+			order = order[:3]
+		}
+		for ci, cls := range order {
+			confirmed := false
+			lastRC := 0
+			for _, h := range byClass[cls] {
+				raw := filepath.Join(agg.failDir, fmt.Sprintf("fail-%s-%d.json", propID, h.run))
+				outp := filepath.Join(verifRoot, "replays", fmt.Sprintf("%s-%d-%d-%d.json", propID, batch, h.run, ci+1))
+				_ = os.MkdirAll(filepath.Dir(outp), 0o755)
+				lastRC = minimiseAndConfirm(raw, outp, h.class)
+				if lastRC == 0 {
+					fmt.Printf("VIOLATION property=%s replay=%s\n", propID, outp)
+					fmt.Printf("  class=%s run=%d block=%d step=%d height=%d: %s\n", h.class, h.run, h.v.Block, h.v.Step, h.v.Height, h.v.Detail)
+					replayPaths = append(replayPaths, outp)
+					exit = 1
+					confirmed = true
+					break
+				}
+				_ = os.Remove(outp)
+			}
+			if !confirmed {
+				fmt.Fprintf(os.Stderr, "MACHINERY-ERROR property=%s: violation class %s seen in %d runs did not reproduce standalone in a fresh process for any of the %d candidates tried (rc=%d); not reported as a violation\n", propID, cls, len(byClass[cls]), len(byClass[cls]), lastRC)
 				if exit == 0 {
 					exit = 2
 				}
@@ -426,16 +445,32 @@ func minimiseAndConfirm(raw, outp, class string) int {
 			return 2
 		}
 	}
-	cmd = exec.Command(self, "replay", outp)
-	cmd.Stderr = os.Stderr
-	err := cmd.Run()
-	if err == nil {
-		return 3 // replay reported no violation
+	replayOnce := func() int {
+		cmd := exec.Command(self, "replay", outp)
+		cmd.Stderr = os.Stderr
+		err := cmd.Run()
+		if err == nil {
+			return 3 // replay reported no violation
+		}
+		if ee, ok := err.(*exec.ExitError); ok && ee.ExitCode() == 1 {
+			return 0
+		}
+		return 3
 	}
-	if ee, ok := err.(*exec.ExitError); ok && ee.ExitCode() == 1 {
+	if rc := replayOnce(); rc == 0 {
 		return 0
 	}
-	return 3
+	// the minimised schedule does not reproduce: try the unminimised one
+	sch, lerr := loadSchedule(raw)
+	if lerr != nil {
+		return 3
+	}
+	sch.Expect = &Expect{Class: class, Block: -1, Step: -1, Detail: "unminimised schedule"}
+	sch.Trace = nil
+	if os.WriteFile(outp, []byte(mustJSON(sch)), 0o644) != nil {
+		return 2
+	}
+	return replayOnce()
 }
 
 type evSummary struct {
